@@ -1,18 +1,23 @@
 import PeliteModel.Driver.Image
 import PeliteModel.Model.Pattern
 import PeliteModel.Spec.PatternSem
+import PeliteModel.Spec.PatternSemImpl
 /-! Driver handlers for C11 (semantic half): pattern STRING → parser model → interpreter model, next
 to the reference semantics `PatSem.denote` of the tree recovered by the reference reader.
 ```
 pat_ref <hex pattern string> <hex bytes> <cursor> <nsave> <32|64>   (model only: raw buffer, `ofRaw`)
 pat_sem <k> <hex pattern string> <cursor rva> <nsave>               (current image, `ofView`)
-   -> ok <0|1> save=[..] ## spec=<0|1>:[..] hyp=<0|1> wf=<0|1> frag=<0|1>
+   -> ok <0|1> save=[..] ## spec=<0|1>:[..] impl=<0|1>:[..] hyp=<0|1> hypi=<0|1> wf=<0|1> frag=<0|1> same=<0|1>
    -> err <ParseErrorKind> <pos>
 ```
 `spec`: the documented answer; the list has `nsave` entries, `_` = slot not specified (never written by
 the successful path), empty on a mismatch.  `hyp=1`: the string is `render sty p` of a well-formed tree
 in the fragment of `Thm/C11.lean` (T2) and the image interface is coherent (mapped views; file views
-whose sections do not overlap; raw buffers). -/
+whose sections do not overlap; raw buffers).
+`impl`: the answer of the second reference semantics `PatSem.denoteImpl` (`Spec/PatternSemImpl.lean`: the last
+alternative continues into what follows the `)`, a trailing `[a-b]` means `[a]`), same format as `spec`.
+`hypi=1`: the hypotheses of the UNCONDITIONAL theorem (`Thm/C11Impl.lean`, T2'): the string is `render sty p` of
+a well-formed tree and the image interface is coherent — no fragment condition. -/
 namespace Pelite.Driver
 open Pelite.Proto Pelite.Pe Pelite.Pattern Pelite.Exec Pelite.PatSem
 
@@ -34,15 +39,19 @@ def answer (S : ScanI) (coherent : Bool) (pat : List UInt8) (cursor nsave : Nat)
       | .ok (b, s) => s!"ok {b01 b} save={fmtSave s}"
       | o => outStr (fun _ => "") o
     match readStyled pat with
-    | none => s!"{ans} ## spec=- hyp=0 wf=0 frag=0"
+    | none => s!"{ans} ## spec=- impl=- hyp=0 hypi=0 wf=0 frag=0"
     | some (_, p) =>
       let spec := match denote S p cursor with
         | some (_, w) => s!"1:{fmtCaps w nsave}"
         | none => "0:[]"
+      let impl := match denoteImpl S p cursor with
+        | some (_, w) => s!"1:{fmtCaps w nsave}"
+        | none => "0:[]"
       let wf := WF p
       let frag := InFragment p
-      let hyp := wf && frag && coherent && decide (cursor < 4294967296) && decide (S.mem.size < 4294967296)
-      s!"{ans} ## spec={spec} hyp={b01 hyp} wf={b01 wf} frag={b01 frag} same={b01 (decide (compile p = atoms))}"
+      let hypi := wf && coherent && decide (cursor < 4294967296) && decide (S.mem.size < 4294967296)
+      let hyp := hypi && frag
+      s!"{ans} ## spec={spec} impl={impl} hyp={b01 hyp} hypi={b01 hypi} wf={b01 wf} frag={b01 frag} same={b01 (decide (compile p = atoms))}"
 
 end PatSemD
 open PatSemD
